@@ -14,6 +14,7 @@ its levels was extended in place (fragment_dict argument / item assignment) in t
 not depend on that."""
 import contextlib
 import io
+import itertools
 import re
 
 import common
@@ -415,8 +416,13 @@ def annot_sites(valid):
     return sites
 
 
+# texts float() refuses: no number at all, and texts that BEGIN with, END with or CONTAIN a number
+BAD_NUMBERS = ['abc', '1abc', '0.5.5', '1e', '2-', '1 000', 'a1', '1a1', '--1', '1_', '1.5x', '+-1', 'e5']
+
+
 def annot_faults(valid):
     out = []
+    bad = itertools.cycle(BAD_NUMBERS)
     for lk, pi, a, b, head, ents in annot_sites(valid):
         pre = '[#' if lk != 1 else '['
 
@@ -441,14 +447,14 @@ def annot_faults(valid):
                     continue                                         # bound positionally: handled below
                 kept = [e for e in ents if not e.startswith(key + '=')]
                 if p <= len(kept):
-                    emit(6, kept[:p] + [key + '=abc'] + kept[p:], p)
+                    emit(6, kept[:p] + [key + '=' + next(bad)] + kept[p:], p)
         # a positional value replaced by a non-number
         posn = [i for i, e in enumerate(ents) if '=' not in e]
         for key in FLOATKEYS[lk]:
             idx = POSINDEX[lk][key] - (1 if lk != 1 else 0)
             if idx < len(posn):
                 new = list(ents)
-                new[posn[idx]] = 'abc'
+                new[posn[idx]] = next(bad)
                 emit(6, new, posn[idx])
     return out
 
